@@ -9,7 +9,7 @@ Widen(v, maxv) == (2 * 255 * v + maxv) \div (2 * maxv)
 Bgra565(p) == << Widen(p % 32, 31), Widen((p \div 32) % 64, 63), Widen((p \div 2048) % 32, 31), 255 >>
 
 \* top-down pixel list -> output bytes
-Out565(pixels) == Concat([k \in 1..Len(pixels) |-> Bgra565(pixels[k])])
+Out565(pixels) == [k \in 1..(4 * Len(pixels)) |-> Bgra565(pixels[((k - 1) \div 4) + 1])[((k - 1) % 4) + 1]]
 
 \* raw 16 bpp data (bottom-up rows, little endian) -> bottom-up stream of pixels; Bad when the size is wrong
 Raw16(data, w, h) == IF Len(data) # 2 * w * h THEN Bad("raw 16 bpp: data size # width * height * 2")
